@@ -77,7 +77,38 @@ def verify(srcdir, k, name, skip_suite=False):
     return meta
 
 
+def recheck(name):
+    """Re-run the twenty checks against an already confirmed seeded change (patch applied in a scratch worktree)."""
+    dst = os.path.join(VERIF, "seeded", name)
+    meta = json.load(open(os.path.join(dst, "meta.json")))
+    wt = f"/tmp/seedchk_{name}"
+    sh(f"git -C /repo worktree remove --force {wt}")
+    rc, out = sh(f"git -C /repo worktree add -q --detach {wt} HEAD")
+    try:
+        rc, out = sh(f"git -C {wt} apply {dst}/patch.diff")
+        if rc != 0:
+            meta["confirmed"]["recheck_note"] = "patch no longer applies to /repo HEAD: " + out[-200:]
+            fired, errs = {}, {}
+        else:
+            fired, errs = run_checks(wt)
+            meta["confirmed"].pop("recheck_note", None)
+        meta["confirmed"]["checks_fired"] = fired
+        meta["confirmed"]["checks_analysis_error"] = errs
+    finally:
+        sh(f"git -C /repo worktree remove --force {wt}")
+    json.dump(meta, open(os.path.join(dst, "meta.json"), "w"), indent=1)
+    own = meta["property"]
+    return f"{name}: own={own} {'CAUGHT' if own in fired else 'missed'} fired={sorted(fired)} err={sorted(errs)}" + (" NOTE " + meta["confirmed"].get("recheck_note", "") if "recheck_note" in meta["confirmed"] else "")
+
+
 if __name__ == "__main__":
+    if sys.argv[1] == "recheck":
+        from concurrent.futures import ThreadPoolExecutor
+        names = sys.argv[2:] or sorted(os.listdir(os.path.join(VERIF, "seeded")))
+        with ThreadPoolExecutor(max_workers=8) as ex:
+            for line in ex.map(recheck, names):
+                print(line)
+        sys.exit(0)
     if sys.argv[1] == "verify":
         m = verify(sys.argv[2], sys.argv[3], sys.argv[4])
         c = m.get("confirmed", m)
